@@ -217,7 +217,7 @@ def gen_history(rng, idx, base, opts):
         btasks = [dict(t) for t in tasks]
         bop = {"op": "build", "tasks": btasks, "cfg": cfg, "faults": faults}
         if rng.random() < opts.get("illformed", 0.0):
-            kind = rng.choice(["dup", "dup_spell", "cycle", "after_cycle", "bad_k", "bad_after", "self", "after_multi", "mem_cycle"])
+            kind = rng.choice(["dup", "dup_spell", "cycle", "after_cycle", "bad_k", "bad_after", "self", "after_multi", "after_multi", "mem_cycle"])
             with_prod = [t for t in btasks if t["prods"]]
             if kind in ("dup", "dup_spell") and with_prod and len(btasks) > 1:
                 a = rng.choice(with_prod)
@@ -243,8 +243,12 @@ def gen_history(rng, idx, base, opts):
                 # a cycle closed by several `after` edges together: c after b, b after d, d after b (in this order)
                 if len(with_prod) >= 3:
                     cc, bb, dd = rng.sample(with_prod, 3)
-                    for x in (cc, bb, dd):
+                    # the three in one module, in this order of definition (= order of processing); function-form
+                    # `after` needs the functions of one module, so it is dropped everywhere in this project
+                    for x in btasks:
                         x["after_fn"] = []
+                    for x in (cc, bb, dd):
+                        x["module"] = 1
                     cc["after_expr"] = f"t{bb['id']}_"
                     bb["after_expr"] = f"t{dd['id']}_"
                     dd["after_expr"] = f"t{bb['id']}_"
